@@ -82,6 +82,12 @@ def history(draw):
                 # things go, not what is there already
                 s['profile'] = draw(st.sampled_from(
                     [None, None, None, 'ebuild', 'old-ebuild']))
+                if any(n['t'] == 'l' and n.get('k') == 'd'
+                       for n in state['tree']['nodes']):
+                    # (a profile puts new Manifests into directories that a
+                    # directory symlink gives a second name: every later
+                    # rename then shows up under the alias as well)
+                    s['profile'] = None
             if k == 'update-save' and draw(st.integers(0, 2)) == 0:
                 # the loader that saves has verified (part of) the tree first
                 s['opts']['api'] = 'lib'
